@@ -26,7 +26,11 @@ def run(prop, tier, seed, work, ev):
     # composites whose parts interact only if evaluation is NOT compositional (a `!` over a parenthesised group, an inner projection
     # over a per-element temporary): judged against Eval, which is compositional by construction (MC_Eval_laws)
     import eng_eval
-    rej = rej + eng_eval.pool_families(["bool", "inflate"], work, ev, drv)
+    rej = rej + eng_eval.pool_families(["bool", "inflate", "hash"], work, ev, drv)
+    c2 = work.path("chains.cases")
+    eng_eval.gen(work, "chains", c2, n=3)
+    rej = rej + eng_eval.run_and_judge("operator chains (pipes, filters with inner projections, boolean operators among the links) x 4 nested documents",
+                                       c2, work, ev, drv, docs=c2 + ".docs", nsamples=1)
     return rej
 
 
